@@ -401,7 +401,7 @@ func (v *Verifier) applyContractNamed(s *State, fc *FuncContract, sig *types.Sig
 			if c.heldLock != nil {
 				continue
 			}
-			v.addOb(s, "pre", pos, ev.boolExpr(c.Expr), name+" requires "+c.Text, nil)
+			v.addOb(s, "pre", pos, ev.boolExpr(c.Expr), name+" requires "+c.Text, c.Props)
 		}
 	}
 	// frame
